@@ -472,13 +472,13 @@ def r08_5(prog, rep):
 
 def run(prog, rep, tier, snap):
     rep.rule("R08.1", "64-bit evaluation of millisecond quantities", 6)
-    r08_1(prog, rep)
+    rep.call(r08_1, prog, rep)
     rep.rule("R08.2", "calendar tables, unit macros, leap predicates and epoch constants agree", 15)
-    r08_2(prog, rep)
+    rep.call(r08_2, prog, rep)
     rep.rule("R08.3", "sentinels fit their bit-fields; field widths and order", 4)
-    r08_3(prog, rep)
+    rep.call(r08_3, prog, rep)
     rep.rule("R08.4", "March-based table implies a year carry for months < 3 (both directions)", 2)
-    r08_4(prog, rep)
+    rep.call(r08_4, prog, rep)
     rep.rule("R08.5", "every month wrap carries the year (sibling pattern over all wrap sites)", 12)
-    r08_5(prog, rep)
+    rep.call(r08_5, prog, rep)
 READY = True
